@@ -63,6 +63,7 @@ void check_C01(Src &s, Ctx &ctx) {
     SpecOpts so; so.nonnested = false; so.custom = false; so.min_outs = 1; so.max_outs = 3; so.cap = cfg().tier ? 500 : 350;
     GridState st; st.cap = so.cap; st.ctx = &ctx;
     st.spec = decode_spec(s, so); st.vm.decode(s);
+    if (s.n >= 3 && (s.p[s.n - 1] % 8) == 5) { st.vm.degenerate = 1 + (s.p[s.n - 2] % 3); ctx.label("model:degenerate"); }   // one case in eight: constant / affine / one-active-direction model (coefficients vanish exactly)
     make_grid(st.g, st.spec, so.cap);
     ctx.log(st.spec.text()); ctx.log(st.vm.text());
     static const std::vector<int> kinds = {OP_LOAD, OP_LOAD, OP_LOAD, OP_REF_SURP, OP_REF_SURP, OP_REF_ANISO, OP_RELOAD, OP_UPDATE, OP_CLEAR_REF, OP_MERGE,
